@@ -94,6 +94,7 @@ type ContractSet struct {
 	Lemmas  []*Lemma
 	Rules   []*StructRule
 	Specs   []string // raw SMT-LIB definitions (spec functions)
+	Blocks  []SpecBlock
 	SpecSyms map[string]specSig
 	Templates map[string]*Contract // template name -> contract body
 	Families []*Family
@@ -502,12 +503,118 @@ func splitTop(s string, sep byte) []string {
 
 var defineRe = regexp.MustCompile(`\((define-fun-rec|define-fun|declare-fun)\s+([^\s()]+)\s*\(`)
 
+// splitTopLevelForms splits SMT-LIB text into its top-level s-expressions (comments kept with
+// the following form).
+func splitTopLevelForms(text string) []string {
+	var out []string
+	d := 0
+	start := 0
+	inq := false
+	incomment := false
+	for i := 0; i < len(text); i++ {
+		c := text[i]
+		if incomment {
+			if c == '\n' {
+				incomment = false
+			}
+			continue
+		}
+		if c == '|' {
+			inq = !inq
+			continue
+		}
+		if inq {
+			continue
+		}
+		switch c {
+		case ';':
+			incomment = true
+		case '(':
+			d++
+		case ')':
+			d--
+			if d == 0 {
+				out = append(out, strings.TrimSpace(text[start:i+1]))
+				start = i + 1
+			}
+		}
+	}
+	return out
+}
+
+type SpecBlock struct {
+	Text  string
+	Names []string
+}
+
+// specsFor returns the spec definitions a script body needs (transitively), in file order.
+func (cs *ContractSet) specsFor(body string) []string {
+	need := make([]bool, len(cs.Blocks))
+	changed := true
+	text := body
+	for changed {
+		changed = false
+		for i, b := range cs.Blocks {
+			if need[i] {
+				continue
+			}
+			for _, n := range b.Names {
+				if strings.Contains(text, n) {
+					need[i] = true
+					changed = true
+					text += "\n" + b.Text
+					break
+				}
+			}
+		}
+	}
+	var out []string
+	for i, b := range cs.Blocks {
+		if need[i] {
+			out = append(out, b.Text)
+		}
+	}
+	return out
+}
+
+var formNameRe = regexp.MustCompile(`^\((define-fun-rec|define-fun|declare-fun)\s+([^\s()]+)`)
+
 func (cs *ContractSet) addSpec(text string) {
 	text = strings.TrimSpace(text)
 	if text == "" {
 		return
 	}
+	for _, f := range splitTopLevelForms(text) {
+		b := SpecBlock{Text: f}
+		// drop leading comment lines for name detection
+		body := f
+		for strings.HasPrefix(body, ";") {
+			if i := strings.IndexByte(body, '\n'); i >= 0 {
+				body = strings.TrimSpace(body[i+1:])
+			} else {
+				body = ""
+			}
+		}
+		if m := formNameRe.FindStringSubmatch(body); m != nil {
+			b.Names = []string{m[2]}
+		} else if strings.HasPrefix(body, "(define-funs-rec") {
+			for _, ln := range strings.Split(f, "\n") {
+				fl := strings.Fields(ln)
+				if len(fl) >= 4 && fl[0] == ";" && fl[1] == "sig" {
+					b.Names = append(b.Names, fl[2])
+				}
+			}
+		}
+		cs.Blocks = append(cs.Blocks, b)
+	}
 	cs.Specs = append(cs.Specs, text)
+	// explicit signatures:  ; sig NAME RETSORT   (needed for define-funs-rec groups)
+	for _, ln := range strings.Split(text, "\n") {
+		f := strings.Fields(ln)
+		if len(f) >= 4 && f[0] == ";" && f[1] == "sig" {
+			cs.SpecSyms[f[2]] = specSig{Name: f[2], Ret: strings.Join(f[3:], " ")}
+		}
+	}
 	for _, m := range defineRe.FindAllStringSubmatchIndex(text, -1) {
 		name := text[m[4]:m[5]]
 		// parameter list starts at the '(' that ends the match
